@@ -47,13 +47,13 @@ func (p *pendingFake) Cancel() { p.once.Do(func() { close(p.cancelled) }) }
 
 func c20Wrappers() []string {
 	return []string{"UpsertXattrs", "CreateDocument", "UpdateDocument", "DeleteDocument", "GetXattrs", "Get", "CreatePath", "MetadataSave", "MetadataLoad", "Ping", "GetFailOverLogs", "GetVBucketSeqNos", "OpenStream", "CloseStream",
-		"GetVBucketSeqNosColl", "GetCollectionIDs", "MetadataClear"}
+		"GetVBucketSeqNosColl", "GetCollectionIDs", "MetadataClear", "MetadataSaveBig"}
 }
 
 // op codes whose reply decides the outcome of a wrapper
 func c20Ops(w string) []byte {
 	switch w {
-	case "UpsertXattrs", "UpdateDocument", "CreatePath", "MetadataSave":
+	case "UpsertXattrs", "UpdateDocument", "CreatePath", "MetadataSave", "MetadataSaveBig":
 		return []byte{cbsim.OpSubdocMutate}
 	case "CreateDocument":
 		return []byte{cbsim.OpSet}
@@ -114,6 +114,14 @@ func init() {
 				} else if tier == "thorough" {
 					behs = append(behs, c20Case{Behaviour: "never"}, c20Case{Behaviour: "late"})
 				}
+				if w == "MetadataSaveBig" {
+					// one save that carries 48 dirty vBuckets; one of the writes fails or is never answered
+					behs = []c20Case{{Behaviour: "ok"}, {Behaviour: "ok", Exists: true}, {Behaviour: "status", Status: 0x82, Nth: 5}, {Behaviour: "status", Status: 0x24, Nth: 40}, {Behaviour: "never", Nth: 7}, {Behaviour: "late", Nth: 3}}
+				}
+				if w == "OpenStream" {
+					// every stream request is answered "roll back", also the re-request at the rollback point
+					behs = append(behs, c20Case{Behaviour: "rollback-always"})
+				}
 				if w == "GetCollectionIDs" || w == "GetVBucketSeqNosColl" {
 					behs = append(behs, c20Case{Behaviour: "status", Status: 0x88}, c20Case{Behaviour: "status", Status: 0x88, Nth: 2})
 				}
@@ -135,7 +143,7 @@ func init() {
 			for r := 0; r < reps; r++ {
 				for _, c := range cases {
 					to := 60
-					if c.Behaviour == "never" || c.Behaviour == "late" {
+					if c.Behaviour == "never" || c.Behaviour == "late" || c.Behaviour == "rollback-always" {
 						to = 150
 					}
 					out = append(out, drv.Scenario{Kind: "wrapper", Seed: seed + int64(r), Params: mustJSON(c20Params{Cases: []c20Case{c}}), TimeoutS: to, Solo: true})
@@ -298,7 +306,11 @@ func c20AsyncOp(c c20Case) drv.Result {
 }
 
 func c20RunWrapper(c c20Case) drv.Result {
-	env, err := hx.NewEnv(hx.EnvOpts{NumVB: 4})
+	nvb := 4
+	if c.Wrapper == "MetadataSaveBig" {
+		nvb = 64
+	}
+	env, err := hx.NewEnv(hx.EnvOpts{NumVB: nvb})
 	if err != nil {
 		return drv.Result{Verdict: drv.Inconclusive, Detail: err.Error()}
 	}
@@ -324,6 +336,11 @@ func c20RunWrapper(c c20Case) drv.Result {
 	ckKey := fmt.Sprintf("_connector:cbgo:%s:checkpoint:1", cfg.Dcp.Group.Name)
 	if c.Exists && c.Wrapper == "MetadataClear" {
 		for vb := 0; vb < 4; vb++ {
+			env.Sim.PutDoc(fmt.Sprintf("_connector:cbgo:%s:checkpoint:%d", cfg.Dcp.Group.Name, vb), []byte(`{}`), map[string]json.RawMessage{"cbgo": json.RawMessage(`{"checkpoint":{"snapshot":{"startSeqno":1,"endSeqno":1},"vbuuid":1,"seqno":1},"bucketUuid":"u"}`)})
+		}
+	}
+	if c.Exists && c.Wrapper == "MetadataSaveBig" {
+		for vb := 0; vb < 48; vb++ {
 			env.Sim.PutDoc(fmt.Sprintf("_connector:cbgo:%s:checkpoint:%d", cfg.Dcp.Group.Name, vb), []byte(`{}`), map[string]json.RawMessage{"cbgo": json.RawMessage(`{"checkpoint":{"snapshot":{"startSeqno":1,"endSeqno":1},"vbuuid":1,"seqno":1},"bucketUuid":"u"}`)})
 		}
 	}
@@ -369,6 +386,12 @@ func c20RunWrapper(c c20Case) drv.Result {
 			return &cbsim.Action{Delay: d}
 		case "never":
 			return &cbsim.Action{NoReply: true}
+		case "rollback-always":
+			a := &cbsim.Action{HasStatus: true, Status: cbsim.StRollback, Value: make([]byte, 8)}
+			if matched > 50 {
+				a.Delay = 5 * time.Millisecond // keeps the log of a client that never gives up bounded
+			}
+			return a
 		case "drop":
 			return &cbsim.Action{Drop: true}
 		}
@@ -413,6 +436,13 @@ func c20RunWrapper(c c20Case) drv.Result {
 		case "MetadataSave":
 			md := couchbase.NewCBMetadata(cl, cfg)
 			callErr = md.Save(map[uint16]*models.CheckpointDocument{1: models.NewEmptyCheckpointDocument("u")}, map[uint16]bool{1: true}, "u")
+		case "MetadataSaveBig":
+			md := couchbase.NewCBMetadata(cl, cfg)
+			docs, dirty := map[uint16]*models.CheckpointDocument{}, map[uint16]bool{}
+			for vb := uint16(0); vb < 48; vb++ {
+				docs[vb], dirty[vb] = models.NewEmptyCheckpointDocument("u"), true
+			}
+			callErr = md.Save(docs, dirty, "u")
 		case "MetadataLoad":
 			md := couchbase.NewCBMetadata(cl, cfg)
 			_, _, callErr = md.Load([]uint16{1}, "u")
